@@ -519,7 +519,9 @@ def math_dims(cls, numerical=False):
             ('blacklist', vals([], ['cos'], ['nofunc'], ['det'], expect=SAME)),
             ('user_constants', vals({}, {'c': 2}, {'e': 2}, {'pi': None})),
             ('user_functions', [V({}, True, SAME), V({'f': T.f1}, True, SAME, label="{'f': f1}"),
-                                V({'sin': T.f1}, True, SAME, label="{'sin': f1}")]),
+                                V({'sin': T.f1}, True, SAME, label="{'sin': f1}"),
+                                # a default function of the matrix table only: an override there, a new name elsewhere
+                                V({'det': T.f1}, True, SAME, label="{'det': f1}")]),
             ('suppress_warnings', vals(False, True, expect=SAME)),
         ]
         if not numerical:
@@ -977,7 +979,7 @@ def families(tier):
              'variables x numbered_vars x user_constants naming infty x allow_inf x suppress_warnings: infty is a default '
              'constant exactly when allow_inf is set'),
         Grid('math_rules_IntegralGrader', 'IntegralGrader', math_dims('IntegralGrader'), MATH_RULE, tiers=th),
-        Grid('math_rules_MatrixGrader', 'MatrixGrader', math_dims('MatrixGrader'), MATH_RULE, tiers=th),
+        Grid('math_rules_MatrixGrader', 'MatrixGrader', math_dims('MatrixGrader'), MATH_RULE),
         Grid('math_rules_SumGrader', 'SumGrader', math_dims('SumGrader'), MATH_RULE, tiers=th),
         Grid('math_rules_NumericalGrader', 'NumericalGrader', math_dims('NumericalGrader', numerical=True), MATH_RULE),
         Grid('listgrader_rules', 'ListGrader', listgrader_dims,
